@@ -245,9 +245,9 @@ package corazawaf
 //@     invariant forall i int :: 0 <= i && i < len(rg.rules) ==> rg.rules[i].ID_ == old(rg.rules[i].ID_)
 
 // ---------------------------------------------------------------- build-cache keys (C13)
-//@ func (*Rule).AddVariable props C13
+//@ func (*Rule).AddVariable props C13,C01
 //@   memoize re
-//@ func (*Rule).AddVariableNegation props C13
+//@ func (*Rule).AddVariableNegation props C13,C01
 //@   memoize re
 
 // ---------------------------------------------------------------- body limits at the transaction level (C10)
@@ -266,12 +266,12 @@ package corazawaf
 //    refused chunk is stored;
 //  - below the limit the chunk is stored completely and in order;
 //  - ProcessPartial: exactly the first (limit - stored) bytes of the chunk are stored.
-//@ func setAndReturnBodyLimitInterruption props C10,C02
+//@ func setAndReturnBodyLimitInterruption props C10,C02,C20
 //@   requires tx != nil
 //@   modifies tx.interruption
 //@   ensures result0 != nil && fresh(result0) && result0 == tx.interruption && result0.Status == status && result0.Action == "deny" && result1 == 0 && isnil(result2)
 
-//@ func (*Transaction).WriteRequestBody props C10,C02,C07
+//@ func (*Transaction).WriteRequestBody props C10,C02,C20,C07
 //@   requires TxReqInv(tx) && PhaseInv(tx)
 //@   modifies inferred, tx.evalCount
 //@   ensures PhaseInv(tx)
